@@ -73,8 +73,9 @@ def block_seeded():
 blocks = {"fixes": block_fixes, "open": block_open, "evidence": block_evidence, "mutations": block_mutations, "seeded": block_seeded}
 s = open("DESIGN.md").read()
 for name, fn in blocks.items():
-    pat = re.compile(rf"(<!-- BEGIN:{name} -->\n).*?(\n<!-- END:{name} -->)", re.S)
+    pat = re.compile(rf"(<!-- BEGIN:{name} -->\n).*?(<!-- END:{name} -->)", re.S)
     if pat.search(s):
-        s = pat.sub(lambda m: m.group(1) + fn() + m.group(2), s)
+        body = fn()
+        s = pat.sub(lambda m: m.group(1) + body + "\n" + m.group(2), s)
 open("DESIGN.md", "w").write(s)
 print("DESIGN.md blocks regenerated")
